@@ -214,3 +214,86 @@ Proof.
   - rewrite E1. apply M.
   - rewrite E2, <- in_rev. apply M.
 Qed.
+
+(* ---------- failing inner iterators: what is yielded is a prefix of the merge ---------- *)
+Lemma update_cur_f_spec rv fd fs : forall d di s si,
+  update_cur_f rv fd fs d di s si = None \/
+  exists di' si', update_cur_f rv fd fs d di s si = Some (update_cur rv d s, di', si').
+Proof.
+  induction d as [|[dk dv] d' IH]; intros di s si; cbn [update_cur_f update_cur].
+  - right. exists di, si. destruct s; reflexivity.
+  - destruct s as [|[sk sv] s'].
+    + destruct (is_tomb dv); [|right; exists di, si; reflexivity].
+      destruct (fails_at fd di); [left; reflexivity|apply IH].
+    + destruct (dcmp rv dk sk).
+      * destruct (is_tomb dv).
+        -- destruct (fails_at fd di); [left; reflexivity|]. destruct (fails_at fs si); [left; reflexivity|apply IH].
+        -- destruct (fails_at fs si); [left; reflexivity|right; exists di, (S si); reflexivity].
+      * destruct (is_tomb dv); [|right; exists di, si; reflexivity].
+        destruct (fails_at fd di); [left; reflexivity|apply IH].
+      * right. exists di, si. reflexivity.
+Qed.
+
+Lemma update_cur_f_never rv : forall d di s si, exists di' si',
+  update_cur_f rv 0 0 d di s si = Some (update_cur rv d s, di', si').
+Proof.
+  induction d as [|[dk dv] d' IH]; intros di s si; cbn [update_cur_f update_cur fails_at Nat.ltb Nat.leb andb].
+  - exists di, si. destruct s; reflexivity.
+  - destruct s as [|[sk sv] s'].
+    + destruct (is_tomb dv); [apply IH|exists di, si; reflexivity].
+    + destruct (dcmp rv dk sk).
+      * destruct (is_tomb dv); [apply IH|exists di, (S si); reflexivity].
+      * destruct (is_tomb dv); [apply IH|exists di, si; reflexivity].
+      * exists di, si. reflexivity.
+Qed.
+
+Lemma ucollect_f_prefix rv fd fs : forall fuel c di si, exists rest,
+  ucollect rv fuel c = fst (ucollect_f rv fd fs fuel (Some (c, di, si))) ++ rest /\
+  (snd (ucollect_f rv fd fs fuel (Some (c, di, si))) = false -> rest = []).
+Proof.
+  induction fuel as [|f IH]; intros c di si; cbn [ucollect ucollect_f].
+  - exists []. split; reflexivity.
+  - destruct (u_valid c); [|exists []; split; reflexivity].
+    destruct (ucur_kv c) as [e|]; [|exists []; split; reflexivity].
+    unfold ucur_next. destruct (u_dirty c).
+    + destruct (fails_at fd di).
+      * destruct f; cbn [ucollect ucollect_f fst snd app]; [exists []; split; reflexivity|eexists; split; [reflexivity|discriminate]].
+      * destruct (update_cur_f_spec rv fd fs (tl (u_d c)) (S di) (u_s c) si) as [E|(di' & si' & E)]; rewrite E.
+        -- destruct f; cbn [ucollect ucollect_f fst snd app].
+           ++ exists []. split; reflexivity.
+           ++ eexists; split; [reflexivity|discriminate].
+        -- destruct (IH (update_cur rv (tl (u_d c)) (u_s c)) di' si') as (rest & E1 & E2).
+           destruct (ucollect_f rv fd fs f (Some (update_cur rv (tl (u_d c)) (u_s c), di', si'))) as [l err].
+           cbn [fst snd] in *. exists rest. split; [rewrite E1; reflexivity|exact E2].
+    + destruct (fails_at fs si).
+      * destruct f; cbn [ucollect ucollect_f fst snd app]; [exists []; split; reflexivity|eexists; split; [reflexivity|discriminate]].
+      * destruct (update_cur_f_spec rv fd fs (u_d c) di (tl (u_s c)) (S si)) as [E|(di' & si' & E)]; rewrite E.
+        -- destruct f; cbn [ucollect ucollect_f fst snd app].
+           ++ exists []. split; reflexivity.
+           ++ eexists; split; [reflexivity|discriminate].
+        -- destruct (IH (update_cur rv (u_d c) (tl (u_s c))) di' si') as (rest & E1 & E2).
+           destruct (ucollect_f rv fd fs f (Some (update_cur rv (u_d c) (tl (u_s c)), di', si'))) as [l err].
+           cbn [fst snd] in *. exists rest. split; [rewrite E1; reflexivity|exact E2].
+Qed.
+
+Lemma ucollect_f_never rv : forall fuel c di si,
+  ucollect_f rv 0 0 fuel (Some (c, di, si)) = (ucollect rv fuel c, false).
+Proof.
+  induction fuel as [|f IH]; intros c di si; cbn [ucollect ucollect_f]; [reflexivity|].
+  destruct (u_valid c); [|reflexivity]. destruct (ucur_kv c) as [e|]; [|reflexivity].
+  unfold ucur_next. cbn [fails_at Nat.ltb Nat.leb andb]. destruct (u_dirty c).
+  - destruct (update_cur_f_never rv (tl (u_d c)) (S di) (u_s c) si) as (di' & si' & E). rewrite E, IH. reflexivity.
+  - destruct (update_cur_f_never rv (u_d c) di (tl (u_s c)) (S si)) as (di' & si' & E). rewrite E, IH. reflexivity.
+Qed.
+
+Lemma iter_error_path rv fd fs d s :
+  (exists rest, union_iter rv d s = fst (union_iter_f rv fd fs d s) ++ rest /\
+                (snd (union_iter_f rv fd fs d s) = false -> rest = [])) /\
+  union_iter_f rv 0 0 d s = (union_iter rv d s, false).
+Proof.
+  unfold union_iter_f, union_iter. split.
+  - destruct (update_cur_f_spec rv fd fs d 0 s 0) as [E|(di' & si' & E)]; rewrite E.
+    + cbn [ucollect_f fst snd app]. eexists. split; [reflexivity|discriminate].
+    + apply ucollect_f_prefix.
+  - destruct (update_cur_f_never rv d 0 s 0) as (di' & si' & E). rewrite E. apply ucollect_f_never.
+Qed.
